@@ -252,6 +252,30 @@ def run(ck: Check):
         if ok and len(xs) <= 220 and not special:
             cases.append((DET, cfg, xs, None))
             impl.append(trace)
+    # a slow clock followed past TWO abrupt level changes (own generator: independent of the draws above): the first cut
+    # reaches into buckets smaller than the clock, so the window's width and the update count fall out of phase modulo
+    # the clock; the later cuts must still happen at clock-th UPDATES only, and every clock-th update must leave no
+    # exceeding bucket-boundary split
+    import random as _random
+
+    prng = _random.Random(50505)
+    nphase = 0
+    for clock in (4, 8, 32):
+        for m in (2, 5):
+            for rep in range(2 if not thorough else 8):
+                n = 420 if clock < 32 else 700
+                a1 = prng.randrange(n // 5, n // 2) | 1
+                a2 = prng.randrange(a1 + 60, n - 60)
+                lv = prng.choice([(0.2, 0.9, 0.2), (0.8, 0.1, 0.6), (0.1, 0.5, 0.95)])
+                xs = [abs(prng.gauss(lv[0] if i < a1 else lv[1] if i < a2 else lv[2], 0.04)) for i in range(n)]
+                cfgp = dict(clock=clock, delta=prng.choice([0.002, 0.05]), m=m, min_window_size=prng.choice([1, 5]), min_num_instances=prng.choice([5, 10]))
+                trace, ok = monitor(ck, cfgp, xs)
+                nshrink = sum(1 for t in trace if t[0])
+                ck.case(dict(family="slow-clock-two-shifts", config=cfgp, n=n, shifts=[a1, a2], shrinks=nshrink), nontrivial=nshrink > 1, key=repr((cfgp, a1, a2, rep)))
+                ck.count("updates", len(trace))
+                ck.count("shrinking_updates", nshrink)
+                nphase += 1
+    ck.count("slow_clock_two_shift_runs", nphase)
     # min_num_instances raised / lowered through the configuration's setter shortly before a level change:
     # raised -> no cut while the window is narrower than the NEW value; lowered -> the due checks run (no exceeding split survives)
     for lo, hi, direction in ((5, 150, "raised"), (300, 5, "lowered"), (10, 90, "raised"), (200, 3, "lowered")):
